@@ -46,6 +46,14 @@ def run(ctx):
     for site, samples in sorted(sc.samples.items()):
         for (p, e, before) in samples:
             cls = e["func"].split(".")[0]
+            if cls not in ("Mailbox", "AppNamespace", "Server"):
+                # a helper function: it acts for the innermost class method
+                # that called it
+                for fr in reversed(e["stack"]):
+                    c0 = fr.split(".")[0]
+                    if c0 in ("Mailbox", "AppNamespace", "Server"):
+                        cls = c0
+                        break
             st = e["stmt"]
             if e["db"] not in ("chan", "usage"):
                 continue
@@ -79,7 +87,7 @@ def run(ctx):
             else:
                 ctx.ob("R06.scope", construct_of(e), False, e,
                        "channel/usage statement executed outside Mailbox/AppNamespace/Server")
-    ctx.require("R06.scope", n, 25, "statements in Mailbox/AppNamespace")
+    ctx.require("R06.scope", n, 15, "statements in Mailbox/AppNamespace")
     ctx.require("R06.ins", nins, 4, "INSERTs into tables with an app_id column")
     ctx.require("R06.server", nserver, 3, "Server-level statements")
     # R06.bind
@@ -92,8 +100,8 @@ def run(ctx):
                 nb += 1
                 tag = e["value"][2]
                 key = None
-                for x, _ in all_events(p, ("reg_get",)):
-                    if x["obj"] == e["value"]:
+                for x, _ in all_events(p, ("reg_get", "reg_set")):
+                    if x.get("obj") == e["value"] or x.get("value") == e["value"]:
                         key = x["key"]
                 ok = key is not None and key[0] == "sub" and is_client_value(key) and \
                     is_const(key[2]) and key[2][1] == "appid"
